@@ -147,7 +147,8 @@ def run(ctx):
                     xl = torch.tensor(lo, dtype=DT) if as_tensor else lo
                     xu = torch.tensor(hi, dtype=DT) if as_tensor else hi
                     try:
-                        calls, out = extract_rule(nq, xl, xu)
+                        # (every other case also names OTHER settings for the backward pass: they must not reach the forward rule)
+                        calls, out = extract_rule(nq, xl, xu, **({"bck_options": {"n": nq + 3}} if (nq + int(as_tensor)) % 2 == 0 else {}))
                     except Exception as e:
                         ctx.violation("quad/rule/raise", "quad(n=%d) on [%s, %s] (%s limits) raised %s: %s" % (nq, lo, hi, "tensor" if as_tensor else "number", type(e).__name__, str(e)[:100]),
                                       {"n": nq})
